@@ -93,3 +93,13 @@ Proof.
   eexists. split; [vm_compute; reflexivity|]. split; [vm_compute; reflexivity|].
   eapply (run_closed GenScalar.G nested_capture2). vm_compute. reflexivity.
 Qed.
+
+(* ---- program level (scalar fragment): for EVERY program built from literals, inputs, random values, the twenty
+   binary operators, ~, to_public, if_else and k + x, every operand reference in the emitted table points to a
+   strictly smaller key: the table is acyclic (and closed, by C01_closed) *)
+From NadaV.Proofs Require Import C02Program C01Program.
+Theorem C01_scalar_programs_are_acyclic : forall p m,
+  run GenScalar.G p = Ok m -> scalar_fragment (p_stmts p) = true ->
+  forall e, In e (m_ops m) -> forall o, In o (operands (e_op e)) -> (o < e_key e)%Z.
+Proof. exact scalar_programs_are_acyclic. Qed.
+Print Assumptions C01_scalar_programs_are_acyclic.
